@@ -274,13 +274,19 @@ class SimulationMaximumStep(SimulationWithJumpTimes):
             return jump_times, jump_values
 
         def _build_finer_grid(self, jump_times, jump_values):
-            dts = np.diff(jump_times, prepend=0)
+            # the path ends at the maturity (the caller appends it with the last value): the step up to it is capped too
+            last_value = (
+                jump_values[..., -1:]
+                if jump_values.shape[-1]
+                else np.zeros(shape=jump_values.shape[:-1] + (1,))
+            )
+            dts = np.diff(np.append(jump_times, maturity), prepend=0)
             if not any(dts > epsilon):
                 return jump_times, jump_values
 
             positions = np.flatnonzero(dts > epsilon)
             aug_dts = dts
-            aug_jump_values = jump_values
+            aug_jump_values = np.concatenate((jump_values, last_value), axis=-1)
             while positions.size > 0:
                 aug_dts[positions] -= epsilon
                 aug_dts = np.insert(aug_dts, positions, epsilon)
@@ -293,7 +299,8 @@ class SimulationMaximumStep(SimulationWithJumpTimes):
                 positions = np.flatnonzero(aug_dts > epsilon)
             aug_jump_times = np.cumsum(aug_dts)
 
-            return aug_jump_times, aug_jump_values
+            # without the maturity itself
+            return aug_jump_times[:-1], aug_jump_values[..., :-1]
 
         return _build_finer_grid_default if epsilon >= maturity else _build_finer_grid
 
@@ -306,8 +313,5 @@ class SimulationMaximumStep(SimulationWithJumpTimes):
 
     def simulate_jumps(self):
         jump_times, jump_values = super().simulate_jumps()
-
-        if jump_times.size == 0:
-            return jump_times, jump_values
-
+        # also without any jump: the step from 0 to the maturity is capped
         return self.build_finer_grid(jump_times, jump_values)
